@@ -23,7 +23,7 @@ func propC02() *Property {
 			{ID: "R02.3", Floor: 3, Text: "peer window learned from every ack and data segment", Run: r02_3},
 			{ID: "R02.4", Floor: 1, Text: "every received data datagram schedules an ack", Run: r02_4},
 			{ID: "R02.5", Floor: 3, Text: "ack/heartbeat decision always reached, gated only by opening/ack-requested/heartbeat", Run: r02_5},
-			{ID: "R02.6", Floor: 5, Text: "retransmission: timer-gated scan, no window, timeout trigger present, duplicate-ack trigger bounded per segment", Run: r02_6},
+			{ID: "R02.6", Floor: 6, Text: "retransmission: timer-gated scan, no window, timeout trigger present, duplicate-ack trigger bounded per segment", Run: r02_6},
 			{ID: "R02.7", Floor: 5, Text: "only data is deferred during open; open response establishes and wakes the sender", Run: r02_7},
 			{ID: "R02.9", Floor: 6, Text: "the congestion window cannot close: every write is the minimum or is clamped by inRange; positive constant minimum; sendWindowSize inputs", Run: r02_9},
 			{ID: "R02.8", Floor: 8, Text: "datagram authentication and discard (shared with R04.1, R04.5)", Run: func(c *RC) { r04_1(c); r04_5(c) }},
@@ -532,6 +532,61 @@ func r02_6(c *RC) {
 	if nwin == 0 {
 		c.OK("scan-no-window", clo.Pos(), "no window is consulted inside the retransmission closure")
 	}
+	// what decides whether a segment is retransmitted is the segment's own
+	// state and the clock: no captured variable (a budget computed outside
+	// the scan from a window) takes part
+	instrs(clo, func(b *ssa.BasicBlock, _ int, x ssa.Instruction) {
+		oc, ok := x.(*ssa.Call)
+		if !ok || calleeName(oc) != "output" {
+			return
+		}
+		classifyR := func(v ssa.Value) string {
+			switch y := v.(type) {
+			case *ssa.Call:
+				switch calleeName(y) {
+				case "Now", "UnixMicro", "Microseconds", "isDataAckProtocol", "Protocol":
+					return "clock/segment"
+				}
+				return "?call:" + calleeName(y)
+			case *ssa.UnOp:
+				if y.Op == token.MUL {
+					if _, isFV := y.X.(*ssa.FreeVar); isFV {
+						return "?captured:" + y.X.Name()
+					}
+					if f := fieldOrigin(y); f != nil {
+						switch f.Name() {
+						case "ackCount", "txCount", "txTime", "txTimeout":
+							return "segment"
+						}
+						return "?field:" + f.Name()
+					}
+				}
+			case *ssa.FreeVar:
+				return "?captured:" + y.Name()
+			case *ssa.Parameter:
+				return "segment"
+			}
+			return ""
+		}
+		seen := map[string]bool{}
+		for _, ce := range controlConds(clo, b) {
+			for _, k := range condVocab(ce.If.Cond, classifyR) {
+				seen[k] = true
+			}
+		}
+		var foreign []string
+		for k := range seen {
+			if strings.HasPrefix(k, "?") {
+				foreign = append(foreign, k[1:])
+			}
+		}
+		sort.Strings(foreign)
+		if len(foreign) == 0 {
+			c.OKH("retransmit-gate-vocabulary", x.Pos(), "whether a segment in sendBuf is retransmitted depends only on its own counters and timers and the clock")
+		} else {
+			c.Bad("retransmit-gate-vocabulary", x.Pos(), "the retransmission of a due segment also depends on %v: a budget or window computed outside the scan can stay at 0 while the cumulative ack cannot advance, so a single lost datagram is never repaired", foreign)
+		}
+	})
 	// atoms of the closure
 	fld := func(v ssa.Value) string {
 		if f := fieldOrigin(v); f != nil {
